@@ -38,7 +38,7 @@ Accept(c) == /\ Role = "client" /\ phase[c] = "none" /\ \A d \in Conns : phase[d
              /\ seen' = TRUE
              /\ lastAct' = [a |-> "accept", c |-> c, out |-> [rv |-> "ok", wf |-> TRUE, blk |-> pad]] /\ UNCHANGED <<inmsg, acc, delivered, pad, nitems>>
 \* the application adds a request header (NNG_OPT_WS_HEADER) of a length that puts the next request at the emit buffer's boundary
-Pad(cls) == /\ Role = "client" /\ seen /\ pad # cls /\ nitems < MaxItems /\ \A d \in Conns : phase[d] \in {"none", "closed"}
+Pad(cls) == /\ seen /\ pad # cls /\ nitems < MaxItems /\ (Role = "client" => \A d \in Conns : phase[d] \in {"none", "closed"})
             /\ pad' = cls /\ nitems' = nitems + 1
             /\ lastAct' = [a |-> "pad", cls |-> cls, out |-> [rv |-> "ok"]] /\ UNCHANGED <<phase, inmsg, acc, delivered, seen>>
 \* the driver's answer to the upgrade request: anything but a correct 101 makes the client drop the connection
@@ -73,8 +73,10 @@ Http(c, k) ==
   /\ Role = "server" /\ phase[c] = "http" /\ nitems < MaxItems /\ nitems' = nitems + 1
   /\ LET r == HttpResult(k) IN
        /\ phase' = [phase EXCEPT ![c] = IF r[2] THEN "closed" ELSE IF r[1] = 101 THEN "ws" ELSE "http"]
-       /\ lastAct' = [a |-> "http", c |-> c, k |-> k, hc |-> r[2], out |-> [status |-> r[1], wf |-> TRUE, closed |-> r[2]]]
-  /\ UNCHANGED <<inmsg, acc, delivered, pad, seen>>
+       \* blk: the size class of the emitted 101 header block (the listener's response headers may pad it to the emit buffer's boundary)
+       /\ lastAct' = [a |-> "http", c |-> c, k |-> k, hc |-> r[2], out |-> [status |-> r[1], wf |-> TRUE, closed |-> r[2], blk |-> IF r[1] = 101 /\ k = "ok" THEN pad ELSE "na"]]
+       /\ seen' = (seen \/ (r[1] = 101 /\ k = "ok" /\ pad = "base"))
+  /\ UNCHANGED <<inmsg, acc, delivered, pad>>
 
 \* ---------------------------------------------------------------- WebSocket frames from the client
 OpCont == 0  OpText == 1  OpBin == 2  OpClose == 8  OpPing == 9  OpPong == 10
